@@ -228,7 +228,7 @@ func roundTrip(s string) (string, error) {
 }
 
 // jsonDocs parses a stream (go-yaml document by document, anchors resolved) into JSON values.
-func jsonDocs(s string) ([]interface{}, error) {
+func jsonDocs(s string, input bool) ([]interface{}, error) {
 	var out []interface{}
 	dec := yaml3.NewDecoder(strings.NewReader(strings.ReplaceAll(s, "\r\n", "\n")))
 	for {
@@ -255,7 +255,7 @@ func jsonDocs(s string) ([]interface{}, error) {
 		if err := json.Unmarshal(js, &v); err != nil {
 			return nil, err
 		}
-		out = append(out, normaliseMeta(v))
+		out = append(out, normaliseMeta(v, input))
 	}
 	return out, nil
 }
@@ -265,8 +265,9 @@ var readerKeys = map[string]bool{
 	"internal.config.kubernetes.io/seqindent": true,
 }
 
-// normaliseMeta drops the reader's annotations, an emptied annotations map and an emptied metadata map.
-func normaliseMeta(v interface{}) interface{} {
+// normaliseMeta drops an emptied annotations map and an emptied metadata map; on the input side also
+// the reader's own annotations (the output must not carry them at all).
+func normaliseMeta(v interface{}, input bool) interface{} {
 	m, ok := v.(map[string]interface{})
 	if !ok {
 		return v
@@ -279,8 +280,10 @@ func normaliseMeta(v interface{}) interface{} {
 		return m
 	}
 	if an, ok := md["annotations"].(map[string]interface{}); ok {
-		for k := range readerKeys {
-			delete(an, k)
+		if input {
+			for k := range readerKeys {
+				delete(an, k)
+			}
 		}
 		if len(an) == 0 {
 			delete(md, "annotations")
@@ -383,8 +386,8 @@ func roundTripOracle(r *Run, s string) {
 		report("roundtrip_ok", "C13/roundtrip-rejected", "reader/writer rejected a generated stream: "+msg)
 		return
 	}
-	in, err1 := jsonDocs(s)
-	got, err2 := jsonDocs(out1)
+	in, err1 := jsonDocs(s, true)
+	got, err2 := jsonDocs(out1, false)
 	if err1 != nil || err2 != nil {
 		report("roundtrip_data", "C13/roundtrip-unparsable", fmt.Sprintf("reference parse failed: %v / %v", err1, err2))
 		return
